@@ -118,6 +118,8 @@ class Contract:
         self.merge = merge
         self.kf_region = kf_region      # known-finding region (spec expr over params): ensures hold outside it
         self.kf_id = kf_id
+        self.assumes = []               # tree-shape preconditions taken from the property's quantifier domain (e.g. 'attribute values
+                                        # have the shapes parsers store'): assumed at entry, NOT checked at call sites, listed in evidence
         self.defines = []               # definitional namings: `result == name(args)` assumed at call sites only (name is the
                                         # uninterpreted SMT name of this pure function's result; only functional consistency is used)
         self.match_params = {}          # parameter name -> qualified name of the regex whose match object it is
@@ -227,6 +229,14 @@ class Engine:
             raise Unsupported(f'cannot use {v!r} as {t.name}', node)
         if isinstance(v, VObj):
             raise Unsupported(f'object {v.name} where {t.name} expected', node)
+        if isinstance(v.t, TOpt) and isinstance(v.t.inner, TUnion) and isinstance(t, TOpt) and t.inner in v.t.inner.alts.values():
+            # Optional[str | list] used where Optional[str] is expected: the value must not be the other alternative
+            u = v.t.inner
+            alt = next(a_ for a_, at in u.alts.items() if at == t.inner)
+            cs = getattr(self, 'cur_state', None)
+            if cs is not None and not self.spec_mode:
+                self.oblige(cs, 'union-alt', z3.Or(v.t.is_none(v.term), u.is_alt(v.t.val(v.term), alt)), f'value is None or a {t.inner.name}')
+            return V(t, z3.If(v.t.is_none(v.term), t.none(), t.some(u.get(v.t.val(v.term), alt))))
         if isinstance(v.t, TOpt) and v.t.inner == t:
             # implicit narrowing Opt[T] -> T: the value must not be None here
             cs = getattr(self, 'cur_state', None)
@@ -287,6 +297,12 @@ class Engine:
             if any(i is None for i in items):
                 return None
             return V(t, self.mk_seq(t, [i.term for i in items]))
+        if isinstance(t, TUnion):
+            for a_, at in t.alts.items():
+                if at is not None:
+                    lv = self.lift_py(obj, at, node)
+                    if lv is not None:
+                        return V(t, t.mk(a_, lv.term))
         if isinstance(t, TOpt):
             inner = self.lift_py(obj, t.inner, node)
             if inner is not None:
@@ -452,7 +468,7 @@ class Engine:
         st.old_env = dict(st.env)
         st.old_heap = dict(st.heap)
         self.world.assume_param_facts(self, st)
-        for r in c.requires:
+        for r in list(c.requires) + list(c.assumes):
             st.pc.append(self.spec_bool(r, st))
         self.pre_pc = list(st.pc)
         outs = self.exec_block(self.fnode.body, st)
@@ -1417,6 +1433,8 @@ class Engine:
             return x if isinstance(x, (V, VNone, VPy, VObj)) else const_value(x)
         if isinstance(base, VPy) and isinstance(base.obj, dict):
             raise Unsupported('subscript of a constant dict', node)
+        if isinstance(base, VPy) and isinstance(base.obj, tuple) and base.obj and base.obj[0] == 'attrs':
+            return self.world.value_method(self, base, '__getitem__', [idx], {}, st, node, None)
         for r in getattr(self.world, 'iter_rules', []):
             if isinstance(base, V) and not isinstance(base.t, (TSeq, TMap, TTup)) and base.t not in (STR, CPS):
                 conv = r(self, base, st, node)
@@ -1429,6 +1447,8 @@ class Engine:
             self.may_raise(st, 'KeyError', base.t.vopt.is_none(r), 'dict lookup')
             return V(base.t.v, base.t.vopt.val(r))
         if isinstance(base, V) and isinstance(base.t, TTup):
+            if isinstance(idx, V) and idx.t == INT and z3.is_int_value(z3.simplify(idx.term)):
+                idx = VPy(z3.simplify(idx.term).as_long())
             if isinstance(idx, VPy) and isinstance(idx.obj, int):
                 i = idx.obj
                 n = len(base.t.items)
